@@ -51,7 +51,8 @@ def plan(tier: str) -> list[dict]:
 
 def strategy(eng: str, gated: bool, seed: int):
     from hypothesis import strategies as st
-    fail = ['raise:ValueError', 'raise:UnpicklableErr', 'exit', 'baseexc'] + ([] if eng == 'serial' else ['kill9', 'kill15', 'exit0'])
+    from pbt.universe import vu
+    fail = ['raise:ValueError', 'raise:UnpicklableErr', 'exit', 'baseexc'] + vu.CONTROL_FLOW_MODES + ([] if eng == 'serial' else ['kill9', 'kill15', 'exit0'] * 3)
     if seed % 2 == 0:
         s = specs.dag_spec(min_nodes=2, max_nodes=5 if eng == 'spawn' else 10, backends=(eng,), fail_modes=fail, fail_rate=30,
                            noread_rate=30, continue_on_failure=(True, True, False), max_workers=(1, 1, 2, 3, None),
